@@ -380,7 +380,7 @@ def judge(res, xmlschema, counter, fx_dir, cell, payload, result, events):
             res.count('clean_same_tree')
         else:
             res.count('not_applicable:' + (raised.split(':')[0] if raised else 'parsed'))
-    if res.evaluations % 300 == 0:
+    if len(res.samples) < 2:
         res.sample(dict(cell, outcome=raised or 'parsed', parse_starts=result.get('parse_starts')))
 
 
